@@ -455,12 +455,12 @@ def bad_time_format_run(ctx, rng, tmp):
         ctx.violation("unknown-time-directive-accepted-by-cli", {"case": {"argv": ["btf.wav", "--time-format", "%h:%m:%q"]}, "rc": res["rc"]})
 
 
-def run_shard(ctx):
+def run_shard(ctx, upto=None):
     conf = TIERS[ctx.tier]
     tmp = tempfile.mkdtemp(prefix="vf-c15-")
     try:
         rng = ctx.rng("sub")
-        for i in range(conf["subprocess_runs"]):
+        for i in range(conf["subprocess_runs"] if upto is None else 0):
             if not ctx.mine(i):
                 rng.random()
                 continue
@@ -471,7 +471,8 @@ def run_shard(ctx):
         rng = ctx.rng("cli")
         if ctx.shard == 0:
             bad_time_format_run(ctx, rng, tmp)
-        for i in range(conf["runs"]):
+        for i in range(conf["runs"] if upto is None else upto + 1):
+            ctx.replay_info = {"shard": ctx.shard, "nshards": ctx.nshards, "seed": ctx.seed, "i": i}
             rec = make_recording(rng)
             argv, kw, meta = build_argv(rng, rec, tmp, i)
             use_pipe = meta["kind"] == "stdin" and kw["max_read"] is None  # with -M the tool stops reading early: a feeder would stay blocked
@@ -484,7 +485,9 @@ def run_shard(ctx):
                 shutil.rmtree(p) if os.path.isdir(p) else os.unlink(p)
             if ctx.out_of_time():
                 break
-        formatter_checks(ctx, conf)
+        ctx.replay_info = None
+        if upto is None:
+            formatter_checks(ctx, conf)
     finally:
         shutil.rmtree(tmp, ignore_errors=True)
 
@@ -493,8 +496,13 @@ def replay(ctx, case):
     if "fmt_value" in case or "fmt" in case and isinstance(case["fmt"], str):
         formatter_checks(ctx, TIERS["quick"])
         return
-    ctx.note("CLI witnesses are self-describing (argv + recording parameters); re-running the seeded workload of shard 0")
-    run_shard(ctx)
+    import sys
+
+    from ..ctx import replay_by_index
+
+    if not replay_by_index(ctx, sys.modules[__name__], case):
+        ctx.note("subprocess witnesses are self-describing (argv + recording parameters); re-running the seeded workload of shard 0")
+        run_shard(ctx)
 
 
 def inconclusive(merged, tier):
